@@ -26,6 +26,9 @@
     sdrshow <type>                 -> none | <Name>           (today's handlers, today's sdr.py classes)
     linkstate <0|1>                -> none | <Name>
     showstate <0|1>                -> none | <Name>           (sdr_show's state line; 0 = reading/state unavailable)
+    sensorread <cmd s> <type> <ownerlun> <number>
+                                   -> none | req <lun> <netfn> <hex>   (the Get Sensor Reading of today's handler for such a record)
+    sensorreads                    -> <cmd s>:<type>:<D|O|C<n>> …  ( - if none)   default=<n>
     entry <idx> | ientry <idx>     -> ok | AttributeError <ref> | TypeError <ref>   (shipped table | intended table)
     unresolved                     -> i:j i:j …  ( - if none)
     chassis <word>                 -> none | some <code>   (table entry "chassis power <word>" -> method -> option)
@@ -227,6 +230,19 @@ def handle (line : String) : String :=
       let a := sdrAttrs Gen.Cli.sdrClasses Gen.Cli.sdrDefault t
       optName (sdrShowRaises Gen.Cli.handlers a.1 a.2)
     | none => "bad-op"
+  | ["sensorread", cmd, t, l, n] =>
+    match parseStr cmd, t.toNat?, l.toNat?, n.toNat? with
+    | some cmd, some t, some l, some n =>
+      match sensorReadOf Gen.Cli.sensorReads Gen.Cli.sensorReadDefaultLun (toStr cmd) t l n with
+      | none => "none"
+      | some (lun, nf, bs) => s!"req {lun} {nf} {toHex bs}"
+    | _, _, _, _ => "bad-op"
+  | ["sensorreads"] =>
+    let one (r : SensorRead) : String :=
+      showStr (ofString r.cmd) ++ s!":{r.recType}:" ++ (match r.lun with
+        | .default => "D" | .ownerLun => "O" | .const n => s!"C{n}")
+    (if Gen.Cli.sensorReads.isEmpty then "-" else " ".intercalate (Gen.Cli.sensorReads.map one))
+      ++ s!" default={Gen.Cli.sensorReadDefaultLun}"
   | ["linkstate", x] => optName (linkStateRaises Gen.Cli.handlers (x == "1"))
   | ["showstate", x] => optName (sdrStateRaises Gen.Cli.handlers (x == "1"))
   | ["entry", i] =>
